@@ -2,6 +2,7 @@ package rules
 
 import (
 	"go/token"
+	"sort"
 	"strings"
 
 	"golang.org/x/tools/go/ssa"
@@ -12,11 +13,13 @@ import (
 func init() {
 	Register(&Prop{
 		ID:   "C22",
-		Expl: "Decides the start/stop structure of the retransmitter: (R1) messages.NewRedundantMessenger is created only in actions that register it with MessengerManager.AddSender before its first send, the registration's error fails the action, and Manager.AddSender stores into its map only on the not-present edge under its lock; (R2) let W be the success target of a retry-sending state: every other state entered from W or from the retry-sending state, and every terminal state, has an outermost action that calls MessengerManager.RemoveSender with the swap id on every path before it returns; (R3) RemoveSender stops the registered sender, Stop closes the channel on which the sender goroutine's select returns, and only the ticker arm sends; (R4) no other action or recovery path adds a sender.",
+		Expl: "Decides the start/stop structure of the retransmitter: (R1) a messages.NewRedundantMessenger (created directly or through a constructor helper that only returns one) is created only in actions that register it with MessengerManager.AddSender before its first send, the registration's error fails the action, and Manager.AddSender stores into its map only on the not-present edge under its lock; (R2) let W be the success target of a retry-sending state: every other state entered from W or from the retry-sending state, and every terminal state, has an outermost action that calls MessengerManager.RemoveSender with the swap id (directly or through a helper that does so on all of its paths) on every path before it returns; (R3) RemoveSender stops the registered sender, Stop closes the channel on which the sender goroutine's select returns, and only the ticker arm sends; (R4) no other action or recovery path adds a sender.",
 		NotD: "How many already-due ticks race with Stop at run time (at most one by the select structure); timing.",
 		Run:  runC22,
 	})
 }
+
+const c22Depth = 3
 
 func runC22(c *an.Check) {
 	c.Rule("C22.R1", "a retransmitter is created only where it is registered (AddSender) before its first send; AddSender refuses duplicates under its lock")
@@ -46,15 +49,54 @@ func runC22(c *an.Check) {
 	}
 
 	// ---- R1 / R4: creation sites ---------------------------------------------------
+	// constructors: NewRedundantMessenger and in-module functions every return of
+	// which is the result of a constructor
+	ctors := map[*ssa.Function]bool{newRM: true}
+	for round := 0; round < c22Depth; round++ {
+		grew := false
+		for _, fn := range prodFuncs(w) {
+			if ctors[fn] || fn.Signature.Results().Len() != 1 {
+				continue
+			}
+			calls := false
+			for _, call := range an.Calls(fn) {
+				if g := call.Common().StaticCallee(); g != nil && ctors[g] {
+					calls = true
+				}
+			}
+			if !calls {
+				continue
+			}
+			all := true
+			rets := an.Returns(fn)
+			for _, r := range rets {
+				if len(r.Results) != 1 || !c22FromCtor(w, r.Results[0], ctors) {
+					all = false
+				}
+			}
+			if all && len(rets) > 0 {
+				ctors[fn] = true
+				grew = true
+			}
+		}
+		if !grew {
+			break
+		}
+	}
 	nNew := 0
 	retryFns := map[*ssa.Function]bool{}
 	for _, fn := range prodFuncs(w) {
+		if ctors[fn] {
+			continue
+		}
 		for _, call := range an.Calls(fn) {
-			if call.Common().StaticCallee() != newRM {
+			if g := call.Common().StaticCallee(); g == nil || !ctors[g] {
 				continue
 			}
 			nNew++
 			name := w.FuncName(fn)
+			cons := name + " registers-before-send"
+			pos := w.Pos(call.Pos())
 			adds := callsNamed(w, fn, fxAddSender)
 			var sends []ssa.CallInstruction
 			for _, x := range an.Calls(fn) {
@@ -63,7 +105,22 @@ func runC22(c *an.Check) {
 				}
 			}
 			if len(adds) == 0 || len(sends) == 0 {
-				c.Bad("C22.R1", name+" registers-before-send", w.Pos(call.Pos()), "a RedundantMessenger is created here but not registered with the manager and started in the same function: nothing can ever stop it")
+				// registered / started somewhere we do not look into?
+				sum := w.Summary(fn)
+				viaCallee := false
+				for _, ef := range sum.Effects {
+					if ef.In != fn && (ef.Name == fxAddSender || ef.Info.Static == rmSend) {
+						viaCallee = true
+					}
+				}
+				if cv, ok := call.(*ssa.Call); ok && c22Escapes(w, cv, rmSend) {
+					viaCallee = true
+				}
+				if viaCallee {
+					c.Unknown("C22.R1", cons, pos, "a RedundantMessenger is created here and handed to another function (or registered / started in a callee): the register-before-send order could not be followed")
+				} else {
+					c.Bad("C22.R1", cons, pos, "a RedundantMessenger is created here but not registered with the manager and started in the same function: nothing can ever stop it")
+				}
 				continue
 			}
 			retryFns[fn] = true
@@ -71,39 +128,77 @@ func runC22(c *an.Check) {
 			for _, a := range adds {
 				addI = append(addI, a)
 			}
-			good := true
+			bad, unk := "", ""
 			for _, s := range sends {
 				if !an.MustPassInstr(s, addI) {
-					good = false
+					bad = "a send is reachable without a preceding AddSender"
 				}
 				// the send must be on the nil-error edge of AddSender
-				okDom := false
+				okDom, tested := false, false
 				for _, a := range adds {
 					if ac, ok := a.(*ssa.Call); ok {
-						okE, _ := an.OkEdges(ac)
+						okE, failE := an.OkEdges(ac)
+						if len(okE)+len(failE) > 0 {
+							tested = true
+						}
 						if len(okE) > 0 && an.EdgesDominate(okE, s.Block()) {
 							okDom = true
 						}
 					}
 				}
 				if !okDom {
-					good = false
-				}
-			}
-			// registered value is the created messenger, id is the swap id
-			for _, a := range adds {
-				args := a.Common().Args
-				if len(args) == 2 {
-					src := w.Sources(args[1], an.FlowOpts{})
-					if !src.HasPrefix("call", "func:messages.NewRedundantMessenger") {
-						good = false
+					if tested {
+						bad = "a send is reachable after a failed AddSender"
+					} else if c22ErrUsed(adds) {
+						unk = "the error of AddSender is not tested by a nil comparison: shape not interpreted"
+					} else {
+						bad = "the error of AddSender is discarded"
 					}
 				}
 			}
-			c.Decide(good, "C22.R1", name+" registers-before-send", w.Pos(call.Pos()), "AddSender(id, rm) succeeds before rm.SendMessage starts the goroutine", "the retransmitter is started without (or before) a successful registration with the manager: a second one can be started for the same swap and neither is stopped")
+			// registered value is the created messenger that is started
+			for _, a := range adds {
+				args := a.Common().Args
+				if len(args) != 2 {
+					continue
+				}
+				reg, regPure := c22CtorCalls(w, args[1], ctors)
+				if len(reg) == 0 {
+					unk = "the value registered with AddSender could not be traced to a NewRedundantMessenger call"
+					continue
+				}
+				for _, s := range sends {
+					sa := s.Common().Args
+					if len(sa) == 0 {
+						continue
+					}
+					started, startedPure := c22CtorCalls(w, sa[0], ctors)
+					common := false
+					for v := range reg {
+						if started[v] {
+							common = true
+						}
+					}
+					if !common {
+						if regPure && startedPure && len(started) > 0 {
+							bad = "the messenger that is started is not the one that was registered"
+						} else {
+							unk = "cannot relate the started messenger to the registered one"
+						}
+					}
+				}
+			}
+			switch {
+			case bad != "":
+				c.Bad("C22.R1", cons, pos, "the retransmitter is started without (or before) a successful registration with the manager ("+bad+"): a second one can be started for the same swap and neither is stopped")
+			case unk != "":
+				c.Unknown("C22.R1", cons, pos, unk)
+			default:
+				c.OK("C22.R1", cons, pos, "AddSender(id, rm) succeeds before rm.SendMessage starts the goroutine")
+			}
 		}
 	}
-	c.AtLeast("C22.R1", "NewRedundantMessenger call sites", nNew, 1)
+	c.AtLeast("C22.R1", "RedundantMessenger creation sites", nNew, 1)
 
 	// Manager.AddSender: map store only on the not-present edge, lock held
 	{
@@ -115,28 +210,80 @@ func runC22(c *an.Check) {
 				}
 			}
 		}
-		good := len(stores) > 0
-		for _, st := range stores {
-			facts := w.FactsDominating(st)
-			if !an.AnyFact(facts, func(f an.Fact) bool {
-				return (f.Rel == "false" || f.Rel == "true") && strings.Contains(f.Atom, "Manager.messengers[") && strings.HasSuffix(f.Atom, "#1") && f.Rel == "false"
-			}) {
-				good = false
+		// the comma-ok result of a lookup in the map that is stored into (identified
+		// by the store's own map operand, not by a field name)
+		isPresenceOf := func(mapTerm, keyTerm string) func(an.Fact) bool {
+			return func(f an.Fact) bool {
+				if f.Rel != "false" && f.Rel != "true" {
+					return false
+				}
+				if keyTerm != "" {
+					return f.Atom == mapTerm+"["+keyTerm+"]#1"
+				}
+				return strings.HasPrefix(f.Atom, mapTerm+"[") && strings.HasSuffix(f.Atom, "#1")
 			}
-			var locks []ssa.Instruction
-			for _, x := range an.Calls(mgrAdd) {
-				if n := w.Info(x).Name; n == "func:(*sync.Mutex).Lock" && !w.Info(x).IsDefer {
+		}
+		var locks []ssa.Instruction
+		lockSomewhere := false
+		for _, x := range an.Calls(mgrAdd) {
+			if n := w.Info(x).Name; strings.HasSuffix(n, ").Lock") && !w.Info(x).IsDefer {
+				lockSomewhere = true
+				if n == "func:(*sync.Mutex).Lock" {
 					locks = append(locks, x)
 				}
 			}
-			if !an.MustPassInstr(st, locks) {
-				good = false
+		}
+		for _, ef := range w.Summary(mgrAdd).Effects {
+			if strings.HasSuffix(ef.Name, ").Lock") {
+				lockSomewhere = true
 			}
 		}
-		c.Decide(good, "C22.R1", "(*messages.Manager).AddSender refuses-duplicate", w.Pos(mgrAdd.Pos()), "the map store is dominated by the not-present test, under the lock", "AddSender can replace an existing sender (the old goroutine keeps retransmitting and can no longer be stopped)")
+		bad, unk := "", ""
+		if len(stores) == 0 {
+			unk = "no map store found in AddSender itself"
+		}
+		for _, st := range stores {
+			mu := st.(*ssa.MapUpdate)
+			facts := w.FactsDominating(st)
+			isPresence := isPresenceOf(w.Term(mu.Map), w.Term(mu.Key))
+			hasTest := an.AnyFact(w.Facts(mgrAdd), isPresenceOf(w.Term(mu.Map), ""))
+			if !an.AnyFact(facts, func(f an.Fact) bool { return isPresence(f) && f.Rel == "false" }) {
+				if hasTest {
+					bad = "the map store is not dominated by the not-present edge of the lookup"
+				} else {
+					unk = "no presence test of the messengers map was recognised"
+				}
+			}
+			if !an.MustPassInstr(st, locks) {
+				if lockSomewhere {
+					unk = "the lock is taken in a way that could not be followed (other lock type / helper / conditional)"
+				} else {
+					bad = "the map store is not under the manager's lock"
+				}
+			}
+		}
+		cons := "(*messages.Manager).AddSender refuses-duplicate"
+		switch {
+		case bad != "":
+			c.Bad("C22.R1", cons, w.Pos(mgrAdd.Pos()), "AddSender can replace an existing sender (the old goroutine keeps retransmitting and can no longer be stopped): "+bad)
+		case unk != "":
+			c.Unknown("C22.R1", cons, w.Pos(mgrAdd.Pos()), unk)
+		default:
+			c.OK("C22.R1", cons, w.Pos(mgrAdd.Pos()), "the map store is dominated by the not-present test, under the lock")
+		}
 	}
 
 	// ---- R2 ---------------------------------------------------------------------------
+	decideStops := func(t *TI, s, cons, okText, badText string) {
+		switch v, why := c22StopsFirst(w, t, s); v {
+		case 1:
+			c.OK("C22.R2", cons, t.pos(c, s), okText)
+		case 0:
+			c.Unknown("C22.R2", cons, t.pos(c, s), "RemoveSender is reached from this state's action, but not in a shape that could be followed: "+why)
+		default:
+			c.Bad("C22.R2", cons, t.pos(c, s), badText+" ("+why+")")
+		}
+	}
 	nRetry := 0
 	for _, t := range ts {
 		for _, s := range t.T.Order {
@@ -167,8 +314,14 @@ func runC22(c *an.Check) {
 					must[nx] = wst + " --" + ev
 				}
 			}
-			for nx, via := range must {
-				c.Decide(c22StopsFirst(w, t, nx), "C22.R2", t.key(nx)+" stops-retransmission", t.pos(c, nx), "RemoveSender(swap id) on every path of the outermost action (entered via "+via+")",
+			var nxs []string
+			for nx := range must {
+				nxs = append(nxs, nx)
+			}
+			sort.Strings(nxs)
+			for _, nx := range nxs {
+				via := must[nx]
+				decideStops(t, nx, t.key(nx)+" stops-retransmission", "RemoveSender(swap id) on every path of the outermost action (entered via "+via+")",
 					"the swap leaves the state in which it retransmits opening_tx_broadcasted (via "+via+") into a state whose action does not stop the retransmitter on every path")
 			}
 		}
@@ -199,7 +352,7 @@ func runC22(c *an.Check) {
 				c.Decide(!reach, "C22.R2", t.key(s)+" terminal-stops", t.pos(c, s), "terminal not reachable after retransmission started", "a terminal state reachable after retransmission started does not call RemoveSender")
 				continue
 			}
-			c.Decide(c22StopsFirst(w, t, s), "C22.R2", t.key(s)+" terminal-stops", t.pos(c, s), "terminal action removes the sender", "terminal action does not remove the sender on every path")
+			decideStops(t, s, t.key(s)+" terminal-stops", "terminal action removes the sender", "terminal action does not remove the sender on every path")
 		}
 	}
 	c.AtLeast("C22.R2", "retry-sending states", nRetry, 2)
@@ -207,21 +360,54 @@ func runC22(c *an.Check) {
 	// ---- R3 ---------------------------------------------------------------------------
 	{
 		// RemoveSender: calls Stop on the looked-up sender and deletes the entry
-		stops := callsNamed(w, mgrRemove, "iface:messages.StoppableMessenger.Stop")
-		dels := callsNamed(w, mgrRemove, "builtin:delete")
-		c.Decide(len(stops) > 0 && len(dels) > 0, "C22.R3", "(*messages.Manager).RemoveSender stops-and-deletes", w.Pos(mgrRemove.Pos()), "Stop() on the registered sender and delete from the map", "RemoveSender does not stop the sender / free the slot")
-		// Stop closes a channel field
+		rs := w.Summary(mgrRemove)
+		c.Decide(rs.HasEffect("iface:messages.StoppableMessenger.Stop") && rs.HasEffect("builtin:delete"), "C22.R3", "(*messages.Manager).RemoveSender stops-and-deletes", w.Pos(mgrRemove.Pos()), "Stop() on the registered sender and delete from the map", "RemoveSender does not stop the sender / free the slot")
+		// Stop closes a channel field (itself or in a callee)
 		var closed string
-		for _, call := range an.Calls(rmStop) {
-			if w.Info(call).Name == "builtin:close" && len(call.Common().Args) == 1 {
-				closed = w.Term(call.Common().Args[0])
+		for _, ef := range w.Summary(rmStop).Effects {
+			if ef.Name == "builtin:close" && len(ef.Info.Instr.Common().Args) == 1 {
+				closed = w.Term(ef.Info.Instr.Common().Args[0])
 			}
 		}
 		c.Decide(closed != "", "C22.R3", "(*messages.RedundantMessenger).Stop closes-channel", w.Pos(rmStop.Pos()), "closes "+closed, "Stop does not close a channel")
-		// goroutine in SendMessage: select with a recv on that channel whose arm returns; sends only on the other arm
-		good := false
-		why := "no goroutine with a select found"
-		for _, g := range rmSend.AnonFuncs {
+		// the goroutine(s) started by SendMessage: a select with a recv on that
+		// channel whose arm returns; sends only on the other arm
+		var bodies []*ssa.Function
+		seenBody := map[*ssa.Function]bool{}
+		var addBody func(g *ssa.Function, depth int)
+		addBody = func(g *ssa.Function, depth int) {
+			if g == nil || g.Blocks == nil || seenBody[g] || !w.InModule(g) || depth > c22Depth {
+				return
+			}
+			seenBody[g] = true
+			bodies = append(bodies, g)
+			for _, call := range an.Calls(g) {
+				if _, isGo := call.(*ssa.Go); isGo {
+					continue
+				}
+				addBody(call.Common().StaticCallee(), depth+1)
+			}
+		}
+		nGo := 0
+		starters := []*ssa.Function{rmSend}
+		for _, ef := range w.Summary(rmSend).Effects {
+			if ef.Info.Static != nil && !strings.HasPrefix(ef.Name, "go:") && w.InModule(ef.Info.Static) {
+				starters = append(starters, ef.Info.Static)
+			}
+		}
+		for _, sf := range starters {
+			for _, call := range an.Calls(sf) {
+				if g, isGo := call.(*ssa.Go); isGo {
+					nGo++
+					addBody(g.Common().StaticCallee(), 0)
+				}
+			}
+		}
+		verdict, why := 0, "no goroutine with a select found in SendMessage"
+		if nGo == 0 {
+			why = "SendMessage starts no goroutine with a `go` statement"
+		}
+		for _, g := range bodies {
 			for _, b := range g.Blocks {
 				for _, in := range b.Instrs {
 					sel, ok := in.(*ssa.Select)
@@ -235,24 +421,51 @@ func runC22(c *an.Check) {
 						}
 					}
 					if stopIdx < 0 {
-						why = "the sender goroutine's select has no receive on the channel that Stop closes (" + closed + ")"
+						if verdict == 0 {
+							why = "the sender goroutine's select has no receive that could be matched to the channel that Stop closes (" + closed + ")"
+						}
 						continue
 					}
 					// the stop arm must reach a return without reaching a send or the select again
-					good, why = c22StopArmReturns(w, g, sel, stopIdx)
+					v, y := c22StopArmReturns(w, g, sel, stopIdx)
+					if v == -1 || verdict == 0 {
+						verdict, why = v, y
+					}
 				}
 			}
 		}
-		c.Decide(good, "C22.R3", "(*messages.RedundantMessenger).SendMessage goroutine-stops", w.Pos(rmSend.Pos()), "the stop arm returns without sending", why)
+		cons := "(*messages.RedundantMessenger).SendMessage goroutine-stops"
+		switch verdict {
+		case 1:
+			c.OK("C22.R3", cons, w.Pos(rmSend.Pos()), "the stop arm returns without sending")
+		case -1:
+			c.Bad("C22.R3", cons, w.Pos(rmSend.Pos()), why)
+		default:
+			c.Unknown("C22.R3", cons, w.Pos(rmSend.Pos()), why)
+		}
 	}
 
 	// ---- R4 ---------------------------------------------------------------------------
 	for _, site := range findCallSites(w, fxAddSender) {
 		fn := site.Parent()
-		c.Decide(retryFns[fn], "C22.R4", w.FuncName(fn)+" AddSender", w.Pos(site.Pos()), "sender added by a retry-sending action", "a sender is registered outside the retry-sending action")
+		v := c22OnlyFromRetry(w, fn, retryFns, 0)
+		cons := w.FuncName(fn) + " AddSender"
+		switch v {
+		case 1:
+			c.OK("C22.R4", cons, w.Pos(site.Pos()), "sender added by a retry-sending action")
+		case 0:
+			c.Unknown("C22.R4", cons, w.Pos(site.Pos()), "AddSender is called in a helper / closure whose callers could not all be followed")
+		default:
+			c.Bad("C22.R4", cons, w.Pos(site.Pos()), "a sender is registered outside the retry-sending action")
+		}
 	}
 	// retry-sending functions are run only by their table states (not by Recover specials or service helpers)
+	var rfs []*ssa.Function
 	for fn := range retryFns {
+		rfs = append(rfs, fn)
+	}
+	sort.Slice(rfs, func(i, j int) bool { return w.FuncName(rfs[i]) < w.FuncName(rfs[j]) })
+	for _, fn := range rfs {
 		users := 0
 		for _, f2 := range prodFuncs(w) {
 			for _, call := range an.Calls(f2) {
@@ -265,13 +478,138 @@ func runC22(c *an.Check) {
 	}
 }
 
+// c22FromCtor: every source of v is the result of a constructor call.
+func c22FromCtor(w *an.World, v ssa.Value, ctors map[*ssa.Function]bool) bool {
+	calls, pure := c22CtorCalls(w, v, ctors)
+	return pure && len(calls) > 0
+}
+
+// c22CtorCalls returns the constructor calls v may come from (within its
+// function) and whether it comes from nothing else.
+func c22CtorCalls(w *an.World, v ssa.Value, ctors map[*ssa.Function]bool) (map[ssa.Value]bool, bool) {
+	out := map[ssa.Value]bool{}
+	pure := true
+	src := w.Sources(v, an.FlowOpts{})
+	for _, l := range src.Leaves {
+		if l.Kind == "call" && l.Call != nil {
+			if g := l.Call.Common().StaticCallee(); g != nil && ctors[g] {
+				out[l.Call] = true
+				continue
+			}
+		}
+		pure = false
+	}
+	return out, pure && len(src.Leaves) > 0
+}
+
+// c22Escapes: the created messenger is returned, stored outside locals or passed
+// to an in-module function other than its own SendMessage.
+func c22Escapes(w *an.World, created *ssa.Call, rmSend *ssa.Function) bool {
+	seen := map[ssa.Value]bool{}
+	esc := false
+	var rec func(v ssa.Value)
+	rec = func(v ssa.Value) {
+		if seen[v] || v.Referrers() == nil {
+			return
+		}
+		seen[v] = true
+		for _, r := range *v.Referrers() {
+			switch x := r.(type) {
+			case *ssa.MakeInterface:
+				rec(x)
+			case *ssa.ChangeInterface:
+				rec(x)
+			case *ssa.ChangeType:
+				rec(x)
+			case *ssa.Phi:
+				rec(x)
+			case *ssa.Return, *ssa.MakeClosure:
+				esc = true
+			case *ssa.Store:
+				if al, ok := x.Addr.(*ssa.Alloc); ok && x.Val == v {
+					for _, ld := range an.LoadsReachedBy(x) {
+						rec(ld)
+					}
+					_ = al
+				} else if x.Val == v {
+					esc = true
+				}
+			case ssa.CallInstruction:
+				g := x.Common().StaticCallee()
+				if g == rmSend {
+					continue
+				}
+				if g == nil || w.InModule(g) {
+					esc = true
+				}
+			}
+		}
+	}
+	rec(created)
+	return esc
+}
+
+func c22ErrUsed(adds []ssa.CallInstruction) bool {
+	for _, a := range adds {
+		if ac, ok := a.(*ssa.Call); ok {
+			for _, rv := range an.ResultValues(ac, an.ErrResultIndex(ac)) {
+				if rv.Referrers() != nil && len(*rv.Referrers()) > 0 {
+					return true
+				}
+			}
+		}
+	}
+	return false
+}
+
+// c22OnlyFromRetry: fn is a retry-sending action, or every production caller
+// chain of fn starts in one: 1 yes, -1 no, 0 cannot follow.
+func c22OnlyFromRetry(w *an.World, fn *ssa.Function, retryFns map[*ssa.Function]bool, depth int) int {
+	if retryFns[fn] {
+		return 1
+	}
+	if fn.Parent() != nil {
+		// a closure: judged by the function that creates it
+		return c22OnlyFromRetry(w, an.EnclosingTop(fn), retryFns, depth)
+	}
+	if depth >= c22Depth {
+		return 0
+	}
+	var callers []*ssa.Function
+	for _, f2 := range prodFuncs(w) {
+		if isDummy(w, f2) {
+			continue
+		}
+		for _, call := range an.Calls(f2) {
+			if call.Common().StaticCallee() == fn {
+				callers = append(callers, f2)
+			}
+		}
+	}
+	if len(callers) == 0 {
+		return -1
+	}
+	worst := 1
+	for _, f2 := range callers {
+		if v := c22OnlyFromRetry(w, f2, retryFns, depth+1); v < worst {
+			worst = v
+		}
+	}
+	return worst
+}
+
 // c22StopsFirst: the outermost action of state s calls RemoveSender with the
-// swap id on every path before it returns.
-func c22StopsFirst(w *an.World, t *TI, s string) bool {
+// swap id on every path before it returns: 1 yes, -1 established that it does
+// not, 0 RemoveSender is reached in a shape that could not be followed.
+func c22StopsFirst(w *an.World, t *TI, s string) (int, string) {
 	ss := t.Sum[s]
+	if len(ss.Sites(fxRemoveSender)) == 0 {
+		return -1, "no RemoveSender call in the action's call tree"
+	}
 	for i, fn := range ss.Execs {
-		if c22FnStopsFirst(w, fn) {
-			return true
+		v, why := c22FnStopsFirst(w, fn)
+		if v == 1 {
+			return 1, ""
 		}
 		// a pure wrapper (every return is the result of next.Execute) passes the
 		// obligation on to the next action of the tree
@@ -284,50 +622,173 @@ func c22StopsFirst(w *an.World, t *TI, s string) bool {
 				}
 			}
 		}
-		if !pure {
-			return false
+		if !pure || c22ReachesRemove(w, fn) {
+			return v, why
 		}
 	}
-	return false
+	return -1, "no action of the tree removes the sender before it returns"
 }
 
-func c22FnStopsFirst(w *an.World, fn *ssa.Function) bool {
-	var rem []ssa.Instruction
-	for _, call := range callsNamed(w, fn, fxRemoveSender) {
-		args := call.Common().Args
-		if len(args) != 1 {
-			continue
-		}
-		src := w.Sources(args[0], an.FlowOpts{})
-		idOK := false
-		for _, n := range src.Names() {
+func c22ReachesRemove(w *an.World, fn *ssa.Function) bool {
+	return w.Summary(fn).HasEffect(fxRemoveSender)
+}
+
+// c22IdArg judges the id argument of a RemoveSender call in the frame of fn:
+// 1 it is the swap id, -1 it is definitely something else, 0 unknown. params
+// maps parameters of fn to the arguments bound at the call under consideration.
+func c22IdArg(w *an.World, v ssa.Value, bind map[*ssa.Parameter]ssa.Value, depth int) int {
+	isId := func(names []string) bool {
+		for _, n := range names {
 			if strings.Contains(n, "SwapId") || strings.Contains(n, ".GetId") {
-				idOK = true
+				return true
 			}
 		}
-		if idOK {
-			rem = append(rem, call)
+		return false
+	}
+	src := w.Sources(v, an.FlowOpts{})
+	if isId(src.Names()) {
+		return 1
+	}
+	// through the helper's parameter to the caller's argument
+	worst := 1
+	bound := false
+	for _, l := range src.Leaves {
+		if p, ok := l.Val.(*ssa.Parameter); ok && l.Kind == "param" && bind[p] != nil && depth < c22Depth {
+			bound = true
+			if r := c22IdArg(w, bind[p], nil, depth+1); r < worst {
+				worst = r
+			}
 		}
 	}
+	if bound && worst == 1 && len(src.Leaves) == 1 {
+		return 1
+	}
+	// an id produced by an in-module helper (swapKey(swap))
+	if isId(w.Sources(v, an.FlowOpts{IntoCallees: true}).Names()) {
+		return 1
+	}
+	definite := len(src.Leaves) > 0
+	for _, l := range src.Leaves {
+		switch {
+		case l.Kind == "const":
+		case l.Kind == "field" && strings.HasPrefix(l.Name, "SwapData."):
+		default:
+			definite = false
+		}
+	}
+	if definite {
+		return -1
+	}
+	return 0
+}
+
+// c22RemovePoints lists the instructions of fn after which RemoveSender(swap id)
+// has been called: direct calls, and calls of in-module functions that call it
+// on every path to each of their returns. wrongId / opaque report why points
+// were rejected.
+func c22RemovePoints(w *an.World, fn *ssa.Function, bind map[*ssa.Parameter]ssa.Value, depth int, seen map[*ssa.Function]bool) (pts []ssa.Instruction, wrongId, opaque bool) {
+	if seen[fn] {
+		return nil, false, false
+	}
+	seen[fn] = true
+	defer delete(seen, fn)
+	for _, call := range an.Calls(fn) {
+		ci := w.Info(call)
+		if _, isGo := call.(*ssa.Go); isGo {
+			if ci.Name == fxRemoveSender {
+				opaque = true
+			}
+			continue
+		}
+		if ci.Name == fxRemoveSender {
+			args := call.Common().Args
+			if len(args) != 1 {
+				opaque = true
+				continue
+			}
+			switch c22IdArg(w, args[0], bind, depth) {
+			case 1:
+				pts = append(pts, call)
+			case -1:
+				wrongId = true
+			default:
+				opaque = true
+			}
+			continue
+		}
+		g := ci.Static
+		if g == nil || !w.InModule(g) || g.Blocks == nil || !w.Summary(g).HasEffect(fxRemoveSender) {
+			continue
+		}
+		if depth >= c22Depth {
+			opaque = true
+			continue
+		}
+		b2 := map[*ssa.Parameter]ssa.Value{}
+		for k, a := range call.Common().Args {
+			if k < len(g.Params) {
+				// resolve the argument through our own binding first
+				if p, ok := a.(*ssa.Parameter); ok && bind[p] != nil {
+					a = bind[p]
+				}
+				b2[g.Params[k]] = a
+			}
+		}
+		sub, wr, op := c22RemovePoints(w, g, b2, depth+1, seen)
+		if wr {
+			wrongId = true
+		}
+		if op {
+			opaque = true
+		}
+		rets := an.Returns(g)
+		all := len(sub) > 0 && len(rets) > 0
+		for _, r := range rets {
+			if !an.MustPassInstr(r, sub) {
+				all = false
+			}
+		}
+		if all {
+			pts = append(pts, call)
+		} else if !(len(sub) == 0 && wr && !op) {
+			opaque = true // removal happens in the callee, but not on all of its paths
+		}
+	}
+	return pts, wrongId, opaque
+}
+
+func c22FnStopsFirst(w *an.World, fn *ssa.Function) (int, string) {
+	rem, wrongId, opaque := c22RemovePoints(w, fn, nil, 0, map[*ssa.Function]bool{})
+	fail := func(why string) (int, string) {
+		if opaque {
+			return 0, why + " (a RemoveSender call inside a helper, closure or with an id that could not be traced was not counted)"
+		}
+		return -1, why
+	}
 	if len(rem) == 0 {
-		return false
+		if wrongId {
+			return fail("RemoveSender is called with something other than the swap id")
+		}
+		return fail("no RemoveSender(swap id) call in " + w.FuncName(fn))
 	}
 	for _, r := range an.Returns(fn) {
 		if !an.MustPassInstr(r, rem) {
-			return false
+			return fail("a return of " + w.FuncName(fn) + " is reachable without RemoveSender")
 		}
 	}
 	// and before delegating to the next action
 	for _, ex := range callsNamed(w, fn, fxActionExecute) {
 		if !an.MustPassInstr(ex, rem) {
-			return false
+			return fail("the next action is run before RemoveSender")
 		}
 	}
-	return true
+	return 1, ""
 }
 
-// c22StopArmReturns checks the select loop of the sender goroutine.
-func c22StopArmReturns(w *an.World, g *ssa.Function, sel *ssa.Select, stopIdx int) (bool, string) {
+// c22StopArmReturns checks the select loop of the sender goroutine: 1 the stop
+// arm returns without sending, -1 it does not, 0 the select's lowering could not
+// be interpreted.
+func c22StopArmReturns(w *an.World, g *ssa.Function, sel *ssa.Select, stopIdx int) (int, string) {
 	// the selected index is Extract #0 of the select; find the If chain testing it
 	var idx ssa.Value
 	if sel.Referrers() != nil {
@@ -338,7 +799,7 @@ func c22StopArmReturns(w *an.World, g *ssa.Function, sel *ssa.Select, stopIdx in
 		}
 	}
 	if idx == nil {
-		return false, "cannot find the select's chosen-index value"
+		return 0, "cannot find the select's chosen-index value"
 	}
 	var stopStart *ssa.BasicBlock
 	if idx.Referrers() != nil {
@@ -358,18 +819,18 @@ func c22StopArmReturns(w *an.World, g *ssa.Function, sel *ssa.Select, stopIdx in
 	}
 	if stopStart == nil {
 		// last arm of a blocking select is the else branch of the chain
-		return false, "cannot isolate the stop arm of the select"
+		return 0, "cannot isolate the stop arm of the select"
 	}
 	stop := map[*ssa.BasicBlock]bool{sel.Block(): true}
 	reach := an.ReachBlocks([]*ssa.BasicBlock{stopStart}, nil, stop)
 	if reach[sel.Block()] {
-		return false, "after Stop() the sender goroutine loops back into the select instead of returning: retransmission never stops"
+		return -1, "after Stop() the sender goroutine loops back into the select instead of returning: retransmission never stops"
 	}
 	for b := range reach {
 		for _, in := range b.Instrs {
 			if call, ok := in.(ssa.CallInstruction); ok {
 				if n := w.Info(call).Name; strings.HasSuffix(n, "Messenger.SendMessage") {
-					return false, "the stop arm still sends a message"
+					return -1, "the stop arm still sends a message"
 				}
 			}
 		}
@@ -381,7 +842,7 @@ func c22StopArmReturns(w *an.World, g *ssa.Function, sel *ssa.Select, stopIdx in
 		}
 	}
 	if !ret {
-		return false, "the stop arm does not return"
+		return -1, "the stop arm does not return"
 	}
-	return true, ""
+	return 1, ""
 }
